@@ -424,6 +424,14 @@ class Extractor {
       if (auto *CA = dyn_cast<CompoundAssignOperator>(BO)) {
         o["comp_ty"] = cty(CA->getComputationResultType());
       }
+    } else if (auto *RW = dyn_cast<CXXRewrittenBinaryOperator>(E)) {
+      // C++20: a < b rewritten through operator<=>; keep the operator as written
+      auto DF = RW->getDecomposedForm();
+      o["k"] = "bin";
+      o["op"] = BinaryOperator::getOpcodeStr(DF.Opcode).str();
+      o["l"] = expr(DF.LHS);
+      o["r"] = expr(DF.RHS);
+      o["rewritten"] = true;
     } else if (auto *UO = dyn_cast<UnaryOperator>(E)) {
       o["k"] = "un";
       o["op"] = UnaryOperator::getOpcodeStr(UO->getOpcode()).str();
